@@ -234,7 +234,7 @@ def leaf(binary_only_dates=False):
     opts = [
         st.none(), st.booleans(), st.integers(-2 ** 31, 2 ** 31 - 1),
         st.floats(allow_nan=False, allow_infinity=False), st.sampled_from([0.0, -0.0, 1.5]),
-        TEXT, st.sampled_from(["\\n", "a\\\nb", "\\", "'", "it's", "line1\nline2\n", "\ufeffbom first", "\ufeff", "a\ufeffb"]),
+        TEXT, st.sampled_from(["\\n", "a\\\nb", "\\", "'", "it's", "line1\nline2\n", "\ufeffbom first", "\ufeff", "a\ufeffb", "Object\x00", "a\x00b", "\x00"]),
         st.binary(max_size=10).map(lambda b: ("binary", b)),
         # the flavours of bytes the library itself hands out (message fields of unknown nature, raw blobs): binary values like any other
         st.tuples(st.sampled_from(["jank", "rawbytes"]),
@@ -376,7 +376,7 @@ def _first_diff(a, b, path="$"):
 
 def _xml_illegal(v):
     if isinstance(v, str):
-        return any(c in "\ufffe\uffff" for c in v)
+        return any(c in "\ufffe\uffff" or (ord(c) < 0x20 and c not in "\t\n\r") for c in v)
     if isinstance(v, (list, tuple)):
         return any(_xml_illegal(x) for x in v)
     if isinstance(v, dict):
@@ -416,6 +416,17 @@ def tree_laws(desc, forms):
         if not _close(want, got):
             msg, kind = _first_diff(want, got)
             out.append(("B:%s:%s" % (form, kind), "%s: %s" % (form, msg)))
+        elif isinstance(back, (list, dict)):
+            # parsing is a function of the bytes: what a caller does to one result does not show in the next
+            try:
+                if isinstance(back, list):
+                    back.append("edited by the caller")
+                else:
+                    back["edited by the caller"] = 1
+                if not _close(want, norm_expected(dec(data))):
+                    out.append(("B:%s:second-parse-differs" % form, "%s: parsing the same bytes again after the first result was edited gives another value" % form))
+            except Exception as e:
+                out.append(("B:%s:second-parse-raises" % form, "%s: %r" % (form, e)))
     return out
 
 
